@@ -38,7 +38,7 @@ def main():
         out["apply_msg"] = o[-300:]
         print(json.dumps(out)); return
     # the change as a patch against this very commit (the stored patch must apply with a plain `git apply`)
-    rc, o = sh("git diff -- . ':(exclude)autosar-data/tests/seed_demo.rs'", cwd=WT)
+    rc, o = sh("git diff HEAD -- . ':(exclude)autosar-data/tests/seed_demo.rs'", cwd=WT)
     open(os.path.join(seeddir, "patch.rebased.diff"), "w").write(o)
     rc, o = sh("cargo test --offline -p autosar-data --test seed_demo 2>&1 | tail -5", cwd=WT)
     out["demo_fails_with"] = "test result: FAILED" in o or "panicked" in o
